@@ -11,7 +11,7 @@ PROPERTY = "C13"
 LEVEL = "exploration"
 QUICK_N = 32
 SCENARIO_TIMEOUT = 420
-PROBES = ["ops", "reads", "chunked_reads", "multi_chunk_reads", "appends", "finalized", "buffer_flushes", "caller_reused_its_object", "dictionary_typed_parquet", "parquet_from_sliced_frame", "interleaved_iterators"]
+PROBES = ["ops", "reads", "chunked_reads", "multi_chunk_reads", "appends", "finalized", "buffer_flushes", "caller_reused_its_object", "dictionary_typed_parquet", "parquet_from_sliced_frame", "interleaved_iterators", "text_tables_copied"]
 RULE = (
     "Hypothesis rule-based state machine run outside pytest, one process per seed: histories of <= 30 operations over <= 6 "
     "tables - open a writer (csv/parquet, buffer size 0,2..9, buffer kind DataFrame/Dicts/Records), append 1-7 rows, "
